@@ -2,10 +2,10 @@ package c10
 
 import (
 	"bytes"
-	"os"
 	"errors"
 	"fmt"
 	"math/rand"
+	"os"
 
 	"seehuhn.de/go/pdf"
 
@@ -78,9 +78,9 @@ func runForeign(c foreignCase) (rec Record) {
 	p.P = 0xFFFFF0C0 | uint32(rnd.Intn(64))<<2 | uint32(rnd.Intn(2))<<8 | uint32(rnd.Intn(4))<<10
 
 	var file []byte
-	want := map[obj.Ref]obj.Value{}    // non-stream objects
-	bodies := map[obj.Ref][]byte{}      // stream data
-	dicts := map[obj.Ref]obj.Dict{}     // stream dictionaries (our entries)
+	want := map[obj.Ref]obj.Value{} // non-stream objects
+	bodies := map[obj.Ref][]byte{}  // stream data
+	dicts := map[obj.Ref]obj.Dict{} // stream dictionaries (our entries)
 	if c.Layout == "minimal" {
 		ff, err := c09.BuildForeign(p, sc.version, c.Seed, obj.Ref{Num: c.Num, Gen: c.Gen})
 		if err != nil {
@@ -92,99 +92,126 @@ func runForeign(c foreignCase) (rec Record) {
 		bodies[ff.StmRef] = ff.Body
 		dicts[ff.StmRef] = obj.Dict{"Desc": ff.Str}
 	} else {
-		p.ID0 = make([]byte, 16)
-		rnd.Read(p.ID0)
-		p.Rand = rnd
-		enc, fileKey, err := secure.NewEncryptDict(p)
+		var err error
+		file, want, bodies, dicts, err = buildSer(sc, p, c.Seed, true)
 		if err != nil {
 			rec.Note = "cannot build: " + err.Error()
 			return rec
 		}
-		h, err := secure.Parse(enc, p.ID0)
-		if err != nil {
-			rec.Note = "cannot build: " + err.Error()
-			return rec
-		}
-		kindOf := func() ser.Kind {
-			if sc.version >= "1.5" && rnd.Intn(3) != 0 {
-				return ser.Stream
-			}
-			return ser.Table
-		}
-		trailer := func() obj.Dict {
-			return obj.Dict{"Root": obj.Ref{Num: 1}, "ID": obj.Array{obj.Str(p.ID0), obj.Str(p.ID0)}, "Encrypt": enc}
-		}
-		doc := &ser.Doc{Version: sc.version}
-		encIndirect := rnd.Intn(3) == 0
-		trl := trailer
-		if encIndirect {
-			doc.EncryptRef = obj.Ref{Num: 4}
-			trl = func() obj.Dict {
-				t := trailer()
-				t["Encrypt"] = obj.Ref{Num: 4}
-				return t
+	}
+	if dumpForeign != "" {
+		_ = os.WriteFile(dumpForeign, file, 0o644)
+	}
+	rec.Opened, rec.ContentOK, rec.Note = readCheck(file, c.User, c.Owner, true, want, bodies, dicts)
+	if c.Layout == "ser" && !(rec.Opened && rec.ContentOK) {
+		// control: the same history without encryption
+		if plain, w2, b2, d2, err := buildSer(sc, p, c.Seed, false); err == nil {
+			if o, ok, note := readCheck(plain, "", "", false, w2, b2, d2); !(o && ok) {
+				rec.Opened, rec.ContentOK = true, true
+				rec.Source += "/fails-without-encryption-too"
+				rec.Note = "not a C10 matter, the unencrypted history fails as well: " + note
 			}
 		}
-		k1 := kindOf()
-		rev1 := ser.Revision{Kind: k1, Trailer: trl()}
-		rev1.Ops = append(rev1.Ops,
-			ser.Op{Num: 1, Kind: ser.Define, Value: obj.Dict{"Type": obj.Name("Catalog"), "Pages": obj.Ref{Num: 2}}},
-			ser.Op{Num: 2, Kind: ser.Define, Value: obj.Dict{"Type": obj.Name("Pages"), "Kids": obj.Array{obj.Ref{Num: 3}}, "Count": obj.Int(1)}},
-			ser.Op{Num: 3, Kind: ser.Define, Value: obj.Dict{"Type": obj.Name("Page"), "Parent": obj.Ref{Num: 2}, "Resources": obj.Dict{},
-				"MediaBox": obj.Array{obj.Int(0), obj.Int(0), obj.Int(100), obj.Int(100)}}})
-		if encIndirect {
-			rev1.Ops = append(rev1.Ops, ser.Op{Num: 4, Kind: ser.Define, Value: enc})
+	}
+	return rec
+}
+
+// buildSer lays out a three-revision history with indep/ser: tables or
+// cross-reference streams, object streams, direct and indirect /Length, two
+// numbers freed and re-used (generation 1).  withEnc = false gives the same
+// history without encryption (control).
+func buildSer(sc scheme, p secure.Params, seed int64, withEnc bool) ([]byte, map[obj.Ref]obj.Value, map[obj.Ref][]byte, map[obj.Ref]obj.Dict, error) {
+	rnd := rand.New(rand.NewSource(seed ^ 0x5e5))
+	want := map[obj.Ref]obj.Value{}
+	bodies := map[obj.Ref][]byte{}
+	dicts := map[obj.Ref]obj.Dict{}
+	p.ID0 = make([]byte, 16)
+	rnd.Read(p.ID0)
+	p.Rand = rnd
+	enc, fileKey, err := secure.NewEncryptDict(p)
+	if err != nil {
+		return nil, nil, nil, nil, err
+	}
+	h, err := secure.Parse(enc, p.ID0)
+	if err != nil {
+		return nil, nil, nil, nil, err
+	}
+	kind := ser.Table
+	if sc.version >= "1.5" && rnd.Intn(3) != 0 {
+		kind = ser.Stream
+	}
+	encIndirect := rnd.Intn(3) == 0
+	trailer := func() obj.Dict {
+		t := obj.Dict{"Root": obj.Ref{Num: 1}, "ID": obj.Array{obj.Str(p.ID0), obj.Str(p.ID0)}}
+		if withEnc && encIndirect {
+			t["Encrypt"] = obj.Ref{Num: 4}
+		} else if withEnc {
+			t["Encrypt"] = enc
 		}
-		state := map[uint32]uint16{} // generation in force
-		define := func(rev *ser.Revision, num uint32) {
-			gen := state[num]
-			ref := obj.Ref{Num: num, Gen: gen}
-			switch rnd.Intn(3) {
-			case 0:
-				body := make([]byte, []int{0, 1, 15, 16, 17, 500, 3000}[rnd.Intn(7)])
-				rnd.Read(body)
-				d := obj.Dict{"Note": pick(rnd, stringPool), "Deep": obj.Array{randBytes(rnd, 20)}}
-				mode := ser.LenDirect
-				if rnd.Intn(2) == 0 {
-					mode = ser.LenIndirect
-				}
-				rev.Ops = append(rev.Ops, ser.Op{Num: num, Kind: ser.Define, Value: &obj.Stream{Dict: d, Raw: body}, Length: mode})
-				bodies[ref], dicts[ref] = body, d
-				delete(want, ref)
-			default:
-				v := concreteValue(rnd, "a")
-				inStm := rev.Kind == ser.Stream && gen == 0 && rnd.Intn(2) == 0
-				rev.Ops = append(rev.Ops, ser.Op{Num: num, Kind: ser.Define, Value: v, InObjStm: inStm})
-				want[ref] = v
-				delete(bodies, ref)
-				delete(dicts, ref)
+		return t
+	}
+	doc := &ser.Doc{Version: sc.version}
+	if encIndirect {
+		doc.EncryptRef = obj.Ref{Num: 4}
+	}
+	rev1 := ser.Revision{Kind: kind, Trailer: trailer()}
+	rev1.Ops = append(rev1.Ops,
+		ser.Op{Num: 1, Kind: ser.Define, Value: obj.Dict{"Type": obj.Name("Catalog"), "Pages": obj.Ref{Num: 2}}},
+		ser.Op{Num: 2, Kind: ser.Define, Value: obj.Dict{"Type": obj.Name("Pages"), "Kids": obj.Array{obj.Ref{Num: 3}}, "Count": obj.Int(1)}},
+		ser.Op{Num: 3, Kind: ser.Define, Value: obj.Dict{"Type": obj.Name("Page"), "Parent": obj.Ref{Num: 2}, "Resources": obj.Dict{},
+			"MediaBox": obj.Array{obj.Int(0), obj.Int(0), obj.Int(100), obj.Int(100)}}})
+	if encIndirect {
+		rev1.Ops = append(rev1.Ops, ser.Op{Num: 4, Kind: ser.Define, Value: enc})
+	}
+	state := map[uint32]uint16{} // generation in force
+	forget := func(ref obj.Ref) {
+		delete(want, ref)
+		delete(bodies, ref)
+		delete(dicts, ref)
+	}
+	define := func(rev *ser.Revision, num uint32) {
+		gen := state[num]
+		ref := obj.Ref{Num: num, Gen: gen}
+		forget(ref)
+		if rnd.Intn(3) == 0 {
+			body := make([]byte, []int{0, 1, 15, 16, 17, 500, 3000}[rnd.Intn(7)])
+			rnd.Read(body)
+			d := obj.Dict{"Note": pick(rnd, stringPool), "Deep": obj.Array{randBytes(rnd, 20)}}
+			mode := ser.LenDirect
+			if rnd.Intn(2) == 0 {
+				mode = ser.LenIndirect
 			}
+			rev.Ops = append(rev.Ops, ser.Op{Num: num, Kind: ser.Define, Value: &obj.Stream{Dict: d, Raw: body}, Length: mode})
+			bodies[ref], dicts[ref] = body, d
+			return
 		}
-		for n := uint32(5); n <= 11; n++ {
-			define(&rev1, n)
-		}
-		doc.Revisions = append(doc.Revisions, rev1)
-		// update 1: free two objects, replace one
-		rev2 := ser.Revision{Kind: k1, Trailer: trl()}
-		for _, n := range []uint32{5, 6} {
-			rev2.Ops = append(rev2.Ops, ser.Op{Num: n, Kind: ser.Free, Style: ser.Linked})
-			old := obj.Ref{Num: n, Gen: state[n]}
-			delete(want, old)
-			delete(bodies, old)
-			delete(dicts, old)
-			state[n]++
-		}
-		define(&rev2, 7)
-		doc.Revisions = append(doc.Revisions, rev2)
-		// update 2: the freed numbers come back with generation 1
-		rev3 := ser.Revision{Kind: rev2.Kind, Trailer: trl()}
-		// (only numbers of the first revision: the serialiser lists unused
-		// numbers below its own auxiliary objects as free, some with generation 65535)
-		define(&rev3, 5)
-		define(&rev3, 6)
-		define(&rev3, 11)
-		doc.Revisions = append(doc.Revisions, rev3)
-		hook := func(ref obj.Ref, isStream bool, data []byte) []byte {
+		v := concreteValue(rnd, "a")
+		inStm := rev.Kind == ser.Stream && gen == 0 && rnd.Intn(2) == 0
+		rev.Ops = append(rev.Ops, ser.Op{Num: num, Kind: ser.Define, Value: v, InObjStm: inStm})
+		want[ref] = v
+	}
+	for n := uint32(5); n <= 11; n++ {
+		define(&rev1, n)
+	}
+	// update 1: free two objects, replace one
+	rev2 := ser.Revision{Kind: kind, Trailer: trailer()}
+	for _, n := range []uint32{5, 6} {
+		rev2.Ops = append(rev2.Ops, ser.Op{Num: n, Kind: ser.Free, Style: ser.Linked})
+		forget(obj.Ref{Num: n, Gen: state[n]})
+		state[n]++
+	}
+	define(&rev2, 7)
+	// update 2: the freed numbers come back with generation 1.  (Only numbers
+	// of the first revision: the serialiser lists unused numbers below its own
+	// auxiliary objects as free, some with generation 65535.)
+	rev3 := ser.Revision{Kind: kind, Trailer: trailer()}
+	define(&rev3, 5)
+	define(&rev3, 6)
+	define(&rev3, 11)
+	doc.Revisions = []ser.Revision{rev1, rev2, rev3}
+	opts := &ser.Options{Seed: seed}
+	if withEnc {
+		opts.Encrypt = func(ref obj.Ref, isStream bool, data []byte) []byte {
 			key, aes, ok := h.KeyFor(fileKey, ref.Num, ref.Gen, isStream)
 			if !ok {
 				return data
@@ -197,33 +224,33 @@ func runForeign(c foreignCase) (rec Record) {
 			}
 			return out
 		}
-		res, err := ser.RenderResult(doc, &ser.Options{Seed: c.Seed, Encrypt: hook})
-		if err != nil {
-			rec.Note = "cannot build: " + err.Error()
-			return rec
-		}
-		file = res.Bytes
 	}
-	if dumpForeign != "" {
-		_ = os.WriteFile(dumpForeign, file, 0o644)
+	res, err := ser.RenderResult(doc, opts)
+	if err != nil {
+		return nil, nil, nil, nil, err
 	}
+	return res.Bytes, want, bodies, dicts, nil
+}
 
-	owner := c.Owner
+// readCheck opens a file with the real Reader (both passwords) and compares
+// every object with the plaintext.
+func readCheck(file []byte, user, ownerPw string, encrypted bool, want map[obj.Ref]obj.Value, bodies map[obj.Ref][]byte, dicts map[obj.Ref]obj.Dict) (opened, contentOK bool, note string) {
+	owner := ownerPw
 	if owner == "" {
-		owner = c.User
+		owner = user
 	}
-	rec.Opened, rec.ContentOK = true, true
+	opened, contentOK = true, true
 	fail := func(content bool, format string, a ...any) {
 		if content {
-			rec.ContentOK = false
+			contentOK = false
 		} else {
-			rec.Opened = false
+			opened = false
 		}
-		if rec.Note == "" {
-			rec.Note = fmt.Sprintf(format, a...)
+		if note == "" {
+			note = fmt.Sprintf(format, a...)
 		}
 	}
-	for _, pw := range []string{c.User, owner} {
+	for _, pw := range []string{user, owner} {
 		r, err := pdf.NewReader(bytes.NewReader(file), int64(len(file)), &pdf.ReaderOptions{Password: pw, ErrorHandling: pdf.ErrorHandlingReport})
 		if err != nil {
 			fail(false, "password %q: %v", pw, err)
@@ -252,14 +279,14 @@ func runForeign(c foreignCase) (rec Record) {
 			}
 		}
 	}
-	if c.User != "" {
+	if user != "" && encrypted {
 		r, err := pdf.NewReader(bytes.NewReader(file), int64(len(file)), &pdf.ReaderOptions{Password: "not the password"})
 		var ae *pdf.AuthenticationError
 		if err == nil || r != nil || !errors.As(err, &ae) {
 			fail(false, "a wrong password does not fail with an AuthenticationError: %v", err)
 		}
 	}
-	return rec
+	return opened, contentOK, note
 }
 
 // reverse builds the foreign files of the tier.
